@@ -301,10 +301,24 @@ func main() {
 		keys = append(keys, k)
 	}
 	sort.Strings(keys)
+	classes := map[string]int{}
 	for _, k := range keys {
 		v := total.Violations[k]
 		v.Artefact["states_with_this_key"] = v.Count
 		r.Violation(k, v.Artefact)
+		c := k[strings.Index(k, ": ")+2:]
+		if i := strings.Index(c, " | crash in step"); i > 0 {
+			c = c[:i] + " [" + c[strings.LastIndex(c, "model="):] + "]"
+		}
+		classes[c] += v.Count
+	}
+	if len(classes) > 0 {
+		cl := make([]string, 0, len(classes))
+		for c, n := range classes {
+			cl = append(cl, fmt.Sprintf("  class: %s (%d crash states, incl. known findings)", c, n))
+		}
+		sort.Strings(cl)
+		fmt.Println(strings.Join(cl, "\n"))
 	}
 	r.Set("histories", len(hs))
 	var hn []string
